@@ -86,8 +86,13 @@ func Encode(a *Alloc) []byte {
 	return out
 }
 
-// Decode parses an allocation (strict: everything must be consumed).
-func Decode(b []byte) (*Alloc, error) {
+// Decode parses an allocation (strict: everything must be consumed); bitrate fields of up to eight bytes.
+func Decode(b []byte) (*Alloc, error) { return decode(b, leb128.Decode) }
+
+// DecodeWide is Decode with bitrate fields of up to ten bytes (the whole 64-bit range).
+func DecodeWide(b []byte) (*Alloc, error) { return decode(b, leb128.Decode64) }
+
+func decode(b []byte, readLEB func([]byte) (uint64, int, error)) (*Alloc, error) {
 	if len(b) < 1 {
 		return nil, errors.New("empty")
 	}
@@ -130,7 +135,7 @@ func Decode(b []byte) (*Alloc, error) {
 	pos += ntl
 	for i := range a.Layers {
 		for j := range a.Layers[i].Bitrates {
-			v, n, err := leb128.Decode(b[pos:])
+			v, n, err := readLEB(b[pos:])
 			if err != nil {
 				return nil, err
 			}
